@@ -31,6 +31,12 @@ pub mod generic_array {
     impl<'a> vstd::std_specs::convert::FromSpecImpl<&'a mut [u8; 24]> for &'a mut GenericArray<U24> {
         open spec fn obeys_from_spec() -> bool { false } uninterp spec fn from_spec(v: &'a mut [u8; 24]) -> Self;
     }
+    impl<N: ArrayLength> AsRef<[u8]> for GenericArray<N> {
+        #[verifier::external_body]
+        fn as_ref(&self) -> (r: &[u8]) ensures r@ == self@ { unimplemented!() }
+    }
+    pub broadcast axiom fn ax_asref_ga<N: ArrayLength>(g: &GenericArray<N>)
+        ensures (#[trigger] crate::glue::as_ref_spec::<GenericArray<N>, [u8]>(g))@ == g@;
     impl<N: ArrayLength> core::ops::Deref for GenericArray<N> {
         type Target = [u8];
         #[verifier::external_body]
@@ -133,8 +139,28 @@ pub mod blake2 {
 
 pub mod sha2 {
     use vstd::prelude::*;
+    use crate::glue::*;
     verus!{
-    pub struct Sha384;
+    // `Sha384` names the hasher type; a value of it is a running hash state whose view is the bytes absorbed so far
+    #[verifier::external_body] pub struct Sha384 { _x: u8 }
+    pub type Sha384State = Sha384;
+    impl View for Sha384 { type V = Seq<u8>; uninterp spec fn view(&self) -> Seq<u8>; }
+    impl Default for Sha384 {
+        #[verifier::external_body]
+        fn default() -> (r: Sha384) ensures r@ == Seq::<u8>::empty() { unimplemented!() }
+    }
+    pub trait Digest: Sized {
+        spec fn absorbed(&self) -> Seq<u8>;
+        fn new() -> (r: Self) ensures r.absorbed() == Seq::<u8>::empty();
+        fn update<D: AsRef<[u8]>>(&mut self, data: D) ensures final(self).absorbed() == old(self).absorbed() + as_ref_spec::<D, [u8]>(&data)@;
+    }
+    impl Digest for Sha384 {
+        open spec fn absorbed(&self) -> Seq<u8> { self@ }
+        #[verifier::external_body]
+        fn new() -> (r: Self) { unimplemented!() }
+        #[verifier::external_body]
+        fn update<D: AsRef<[u8]>>(&mut self, data: D) { unimplemented!() }
+    }
     }
 }
 pub mod hmac {
